@@ -2,6 +2,7 @@ package harness
 
 import (
 	"fmt"
+	"strings"
 
 	"seehuhn.de/go/postscript/afm"
 	"seehuhn.de/go/postscript/type1"
@@ -99,6 +100,13 @@ func oneTransientData(in *Input, sch sim.Schedule, at int, st *sim.Stats, explai
 			Detail: fmt.Sprintf("%s returned no error although a Read reported the injected error together with the bytes up to offset %d and the library needed more input afterwards", in.Surf, at), Human: human()}
 	}
 	return nil
+}
+
+// expensiveInput reports whether reading the input runs into the reader's own
+// operation budget (millions of operations per call); such inputs are faulted
+// at a handful of offsets only.
+func expensiveInput(refErr string) bool {
+	return strings.Contains(refErr, "ErrExecutionLimitExceeded")
 }
 
 func offsetsFor(t *sim.Tape, in *Input, all bool, nsample int) []int {
@@ -202,16 +210,22 @@ func C13() *sim.Check {
 	reads.Run = func(c *sim.RunCtx) *sim.Outcome {
 		t := c.T
 		in := genInput(t, readSurfaces, c.St)
-		if _, _, ok := refResult(in); !ok {
+		_, rerr, ok := refResult(in)
+		if !ok {
 			c.St.Inc("skipped_reference_panics(C01)")
 			return nil
+		}
+		nOff := 24
+		if expensiveInput(rerr) {
+			nOff, in.Marks = 2, nil
+			c.St.Inc("expensive_inputs_sampled_only")
 		}
 		c.St.Inc("inputs_" + in.Surf.String())
 		sch := gen.GenSchedule(t, len(in.Data), in.Surf == SurfFont)
 		if sch.Mode == sim.ChunkRandom {
 			sch.Mode, sch.K = sim.ChunkFixed, 1+t.Choose(9)
 		}
-		for _, off := range offsetsFor(t, in, false, 24) {
+		for _, off := range offsetsFor(t, in, false, nOff) {
 			for _, k := range readFaultKinds {
 				if out := oneReadFault(in, sch, sim.Fault{Kind: k, At: off}, nil, c.St, c.Explain); out != nil {
 					return out
@@ -235,7 +249,7 @@ func C13() *sim.Check {
 			c.St.Inc("every_offset_skipped_large")
 			return nil
 		}
-		if _, _, ok := refResult(in); !ok {
+		if _, rerr, ok := refResult(in); !ok || expensiveInput(rerr) {
 			return nil
 		}
 		sch := gen.GenSchedule(t, len(in.Data), in.Surf == SurfFont)
